@@ -30,7 +30,9 @@ fn features(parent: &EnergyPerformance, child: &EnergyPerformance) -> Vec<&'stat
     if g(child, ProdSource::EL_COGEN) < g(parent, ProdSource::EL_COGEN) - 1e-6 {
         f.push("cogen_selfuse_displaced_by_added_pv");
     }
-    if parent.balance_cr.iter().any(|(c, b)| c.is_nearby() && b.used.cgnus_an > 0.0) {
+    // a cogeneration fuel that is mostly renewable by its own weighting factor (biomass, biofuel, a renewable district network)
+    let renewable = |c: &Carrier| parent.wfactors.wdata.iter().any(|w| w.carrier == *c && format!("{}", w.source) == "RED" && format!("{}", w.dest) == "SUMINISTRO" && w.ren > w.nren);
+    if parent.balance_cr.iter().any(|(c, b)| b.used.cgnus_an > 0.0 && renewable(c)) {
         f.push("chp_on_renewable_fuel");
     }
     f
